@@ -68,6 +68,7 @@ fn default_history_size() -> usize {
 
 impl MetricsServer {
     pub fn init(&mut self) -> Result<(), Error> {
+        self.check_settings()?;
         if let Some(ui) = &self.ui {
             #[cfg(feature = "embedded-ui")]
             if ui == "<embedded>" {
@@ -76,6 +77,22 @@ impl MetricsServer {
             let path = std::path::Path::new(ui);
             ensure!(path.is_dir(), "not an accessible directory: {}", ui);
         }
+        Ok(())
+    }
+
+    // settings that would otherwise make listen() panic at start-up
+    fn check_settings(&self) -> Result<(), Error> {
+        ensure!(
+            HeaderValue::from_str(&self.cors).is_ok(),
+            "cors is not a valid header value: {:?}",
+            self.cors
+        );
+        ensure!(
+            self.api_prefix.is_empty()
+                || (self.api_prefix.starts_with('/') && !self.api_prefix.contains('*')),
+            "apiPrefix must start with '/' and must not contain '*': {:?}",
+            self.api_prefix
+        );
         Ok(())
     }
 
